@@ -232,6 +232,13 @@ def model_args(case):
 
 
 def coq_term(case, res):
+    try:
+        return _coq_term(case, res)
+    except ValueError:          # a NaN in the implementation's output: never right
+        return "false"
+
+
+def _coq_term(case, res):
     if not shape_ok(case, res):
         return "false"
     a = model_args(case)
@@ -274,6 +281,19 @@ def explain_failure(case, res, model):
                 note="model (stable tie-breaking): naive/label: per query [distance, [batch, position]]; KLEOR: per query "
                      "[nun index, nun distance, [distance to input, distance to NUN, index]]; [] = +inf; euclidean / "
                      "Minkowski in root-free form")
+
+
+def classify_known(case, res, err, known):
+    """finding reported to the maintainer of known_findings.json: KLEOR + cosine distance + a query without unlike
+    neighbour: the distance to the +inf vector left by dataset_gather is NaN (not +inf); depending on the batch
+    layout tf.argsort ranks the NaN before the +inf fills and real cases come back with NaN dist_to_nuns and
+    finite distances instead of unfilled slots.  Matched on the configuration only."""
+    if (case["method"] in ("simmiss", "globalsim") and case["dist"] == "cosine"
+            and any(all(argmax(t) == argmax(tq) for t in case["targets"]) for tq in case["qtargets"])):
+        for e in known:
+            if e.get("status") == "known" and e.get("match", {}).get("kind") == "kleor_cosine_no_nun":
+                return e["id"]
+    return None
 
 
 def shrink(case):
